@@ -11,8 +11,13 @@ use std::{
 pub use rayon;
 pub use serde_json::{self, Value, json};
 
+pub mod refl4;
+pub mod refcombine;
 pub mod refmac;
+pub mod refrouter;
+pub mod refseg;
 pub mod reftopo;
+pub mod reftopo_enum;
 pub mod refwire;
 
 #[derive(Clone, Copy, Debug, PartialEq, Eq)]
@@ -113,6 +118,9 @@ struct Viol {
     count: u64,
     what: String,
     file: PathBuf,
+    /// serialized witness; the smallest (length, then lexicographic) witness of the class is kept so that
+    /// the replay artefact does not depend on thread scheduling
+    witness: String,
 }
 
 /// One run of one property check.
@@ -214,19 +222,35 @@ impl Run {
             *self.known_hit.lock().unwrap().entry(class.to_string()).or_default() += 1;
             return;
         }
+        let ser = serde_json::to_string_pretty(&witness).unwrap_or_default();
         let mut v = self.viols.lock().unwrap();
         if let Some(e) = v.get_mut(class) {
             e.count += 1;
+            if (ser.len(), &ser) < (e.witness.len(), &e.witness) {
+                e.witness = ser;
+                e.what = what.to_string();
+            }
             return;
         }
         let dir = self.root.join("replays").join(&self.prop);
-        let _ = std::fs::create_dir_all(&dir);
         let safe: String = class.chars().map(|c| if c.is_ascii_alphanumeric() || c == '-' || c == '_' || c == '.' { c } else { '_' }).take(80).collect();
         let file = dir.join(format!("{safe}-{:08x}.json", fnv64(class.as_bytes()) as u32));
-        let body = json!({"property": self.prop, "class": class, "what": what, "witness": witness});
-        let _ = std::fs::write(&file, serde_json::to_string_pretty(&body).unwrap());
-        println!("VIOLATION property={} replay={}   [{}] {}", self.prop, file.display(), class, what);
-        v.insert(class.to_string(), Viol { count: 1, what: what.to_string(), file });
+        eprintln!("violation class found: [{}] {}", class, what);
+        v.insert(class.to_string(), Viol { count: 1, what: what.to_string(), file, witness: ser });
+    }
+
+    /// Writes the replay artefacts (smallest witness per class) and prints the VIOLATION lines.
+    fn flush_violations(&self) {
+        let v = self.viols.lock().unwrap();
+        for (class, e) in v.iter() {
+            if let Some(dir) = e.file.parent() {
+                let _ = std::fs::create_dir_all(dir);
+            }
+            let witness: Value = serde_json::from_str(&e.witness).unwrap_or(Value::Null);
+            let body = json!({"property": self.prop, "class": class, "what": e.what, "count_this_run": e.count, "witness": witness});
+            let _ = std::fs::write(&e.file, serde_json::to_string_pretty(&body).unwrap());
+            println!("VIOLATION property={} replay={}   [{}] x{} {}", self.prop, e.file.display(), class, e.count, e.what);
+        }
     }
 
     pub fn violation_count(&self) -> u64 {
@@ -235,6 +259,7 @@ impl Run {
 
     /// Write the evidence file and exit with the contract's code.
     pub fn finish(self, level: &str, mut coverage: Value, assumptions: &[&str]) -> ! {
+        self.flush_violations();
         let known_hit = self.known_hit.lock().unwrap().clone();
         for k in &self.known {
             if let Some(n) = known_hit.get(&k.class) {
